@@ -332,7 +332,7 @@ fn judge_expression(rec: &mut Rec, expr: &str, rng: &mut Rng, origin: &'static s
 
 const EDIT_ALPHABET: &str = "0123456789*,-/+ abcdefghijklmnopqrstuvwxyzé7";
 
-pub const BASE: [&str; 14] = [
+pub const BASE: [&str; 16] = [
     "* * * * *",
     "*/5 * * * *",
     "0 10 * * Mon-Fri",
@@ -347,6 +347,8 @@ pub const BASE: [&str; 14] = [
     "0 12 10-20 mar,jun sat,sun",
     "30 6 */2 */3 */2",
     "0 0 * * tue-7",
+    "*,5 3,* 1,*,15 *,6 *,mon",
+    "0 0 7-31 * 7-7",
 ];
 
 /// All single-character edits of `s`: (edited string) for index k in 0..count
@@ -427,6 +429,61 @@ pub fn run(ctx: &Ctx) -> PropResult {
         // observe the denoted sets of a sample of the edits that are still accepted
         judge_expression(rec, &e, rng, "single-edit", idx % 5 == 0, 6);
     }));
+    if !ctx.quick() {
+        // ALL double edits of the four shortest base expressions (thorough): second edit applied to every
+        // single-edited string
+        let short: Vec<&str> = vec![BASE[0], BASE[1], BASE[8], BASE[9]];
+        let mut off2: Vec<u64> = vec![0];
+        for b in short.iter() {
+            off2.push(off2.last().unwrap() + edit_count(b));
+        }
+        let total2 = *off2.last().unwrap();
+        wls.push(Workload::cases("all_double_character_edits", total2, move |rec, idx, rng| {
+            let bi = off2.partition_point(|o| *o <= idx) - 1;
+            let e1 = nth_edit(short[bi], idx - off2[bi]);
+            let n2 = edit_count(&e1);
+            for k in 0..n2 {
+                let e2 = nth_edit(&e1, k);
+                judge_expression(rec, &e2, rng, "double-edit", false, 6);
+            }
+        }));
+    }
+    wls.push(Workload::cases("one_invalid_item_in_a_valid_expression", ctx.count(30_000, 1_500_000), |rec, _, rng| {
+        // a grammar-generated (valid) expression in which one list item — at a random position, also
+        // after a `*` — is replaced by an item the documented grammar excludes
+        let e = gen_expression(rng);
+        let mut fields: Vec<String> = e.split_whitespace().map(|s| s.to_string()).collect();
+        if fields.len() != 5 {
+            return;
+        }
+        let f = rng.below(5) as usize;
+        let (min, max): (u32, u32) = [(0, 59), (0, 23), (1, 31), (1, 12), (0, 7)][f];
+        let bad: String = match rng.below(9) {
+            0 => (max + 1 + rng.below(3) as u32).to_string(),
+            1 => if min > 0 { "0".to_string() } else { "60".to_string() },
+            2 => "*/0".to_string(),
+            3 => format!("{}-{}", max, min),
+            4 => String::new(),
+            5 => "foo".to_string(),
+            6 => "+1".to_string(),
+            7 => format!("{}-", min),
+            _ => format!("{}-{}-{}", min, min, max),
+        };
+        let mut items: Vec<String> = fields[f].split(',').map(|s| s.to_string()).collect();
+        match rng.below(3) {
+            0 => items.push(bad),
+            1 => items.insert(rng.below(items.len() as u64 + 1) as usize, bad),
+            _ => {
+                // explicitly after a star
+                items.insert(0, "*".to_string());
+                items.insert(1, bad);
+            }
+        }
+        fields[f] = items.join(",");
+        let expr = fields.join(" ");
+        rec.bin("invalid-item/in-list");
+        judge_expression(rec, &expr, rng, "invalid-item-in-valid-expression", false, 6);
+    }));
     wls.push(Workload::cases("window_iteration_day_lists", ctx.count(2_000, 100_000), |rec, idx, rng| {
         // day-of-month lists / steps / ranges with an unrestricted weekday: the shapes whose denoted set is
         // only visible when the iterator walks across short months
@@ -446,7 +503,7 @@ pub fn run(ctx: &Ctx) -> PropResult {
         "accept side: expressions generated from the documented grammar (per field a list of 1–4 items from *, */n with n up to the field size, a, a-b; month/weekday names in random case; 7 and ranges ending in 7 in the weekday field; extra/odd whitespace) and, per field, every value, every range start/end, every step and every name; reject side: ALL single-character edits (delete / replace / insert over {{0-9 * , - / + space a-z é}}) of {} base expressions. Verdicts: Ok ⇔ the reference grammar accepts, Err(InvalidFormat) otherwise, never a panic; shapes the documentation does not settle (leading zeros, a-b/n, steps above the field size, ? L W #) are skipped. For accepted expressions the denoted sets are read back behaviourally — clock pinned at t−1 min, fresh clone, next()==t ⇔ t is a member — with one query per value of each field (other fields held at members; day queries on days where the other day field cannot satisfy the OR) plus random minutes. Every case non-trivial; distinct by hash of the expression.",
         bases.len()
     );
-    meta.required_bins = vec!["parse/accept-accept", "parse/reject-reject", "parse/unspecified-shape-skipped", "sets/queried", "sets/window-iterated", "member/expected-yes", "member/expected-no"];
+    meta.required_bins = vec!["parse/accept-accept", "parse/reject-reject", "parse/unspecified-shape-skipped", "sets/queried", "sets/window-iterated", "invalid-item/in-list", "member/expected-yes", "member/expected-no"];
     meta.assumptions = vec!["the clock seen by CronSchedule::next is pinned through the cfg(astrolabe_verif) hook (thread-local)".into()];
     Ok((meta, out))
 }
